@@ -18,6 +18,7 @@ pub struct C14 {
 	old_tokens: BTreeMap<usize, Vec<SecretKey>>,
 	last_token: BTreeMap<usize, SecretKey>,
 	pre: Option<(usize, u64)>,
+	pre_active: Option<String>,
 	calls: u64,
 	closed_by_script: Option<usize>,
 }
@@ -47,6 +48,10 @@ const READ_ONLY: &[&str] = &[
 	"node_height",
 	"get_stored_tx",
 ];
+
+/// judged on their effect only (never called with the right token by the script: the
+/// unmasked twin skips scripted calls)
+const EFFECT_ONLY: &[&str] = &["set_active_account"];
 
 const TOKEN_CLASSES: &[&str] = &["right", "absent", "random", "bitflip", "other_wallet", "previous_open"];
 
@@ -107,6 +112,7 @@ impl C14 {
 			old_tokens: BTreeMap::new(),
 			last_token: BTreeMap::new(),
 			pre: None,
+			pre_active: None,
 			calls: 0,
 			closed_by_script: None,
 		}
@@ -304,6 +310,22 @@ impl Prop for C14 {
 				.map_err(|e| format!("{}", e)),
 			"scan" => o.scan(t, None, false).map(|_| String::new()).map_err(|e| format!("{}", e)),
 			"get_rewind_hash" => o.get_rewind_hash(t).map_err(|e| format!("{}", e)),
+			"set_active_account" => {
+				// an existing label, preferably not the active one
+				let snap = ex.world.snap(w);
+				let others: Vec<String> = snap
+					.accts
+					.iter()
+					.map(|a| a.label.clone())
+					.filter(|l| *l != snap.active)
+					.collect();
+				let label = if others.is_empty() {
+					snap.active.clone()
+				} else {
+					others[(seed as usize) % others.len()].clone()
+				};
+				o.set_active_account(t, &label).map(|_| label).map_err(|e| format!("{}", e))
+			}
 			_ => return OpRes::Skipped("unknown method".into()),
 		};
 		match r {
@@ -329,9 +351,15 @@ impl Prop for C14 {
 			let nw = run.ex.world.wallets.len();
 			if run.rng.chance(2, 5) {
 				let w = run.rng.idx(nw);
-				let all: Vec<&str> = MUST_FAIL.iter().chain(READ_ONLY.iter()).cloned().collect();
+				let all: Vec<&str> = MUST_FAIL
+					.iter()
+					.chain(READ_ONLY.iter())
+					.chain(EFFECT_ONLY.iter())
+					.cloned()
+					.collect();
 				let method = *run.rng.pick(&all);
 				let class = *run.rng.pick(TOKEN_CLASSES);
+				let class = if class == "right" && EFFECT_ONLY.contains(&method) { "bitflip" } else { class };
 				// the right token only with read-only methods here (the history itself
 				// exercises the state-changing ones with the right token)
 				let class = if class == "right" && MUST_FAIL.contains(&method) { "absent" } else { class };
@@ -357,6 +385,11 @@ impl Prop for C14 {
 				let w = args["w"].as_u64().unwrap_or(0) as usize;
 				if w < run.ex.world.wallets.len() {
 					self.pre = Some((w, run.ex.world.dir_digest(w)));
+					self.pre_active = if run.ex.world.is_open(w) && run.ex.world.wallets[w].inst.is_some() {
+						Some(run.ex.world.snap(w).active)
+					} else {
+						None
+					};
 				}
 			}
 		}
@@ -401,6 +434,28 @@ impl Prop for C14 {
 							format!("wallet {}: {} succeeded with a {} token", w, method, class),
 						));
 						return v;
+					}
+					// the account later operations act on is wallet state too
+					if let Some(a0) = self.pre_active.take() {
+						if run.ex.world.is_open(w) {
+							let a1 = run.ex.world.snap(w).active;
+							if a0 != a1 {
+								v.push(run.viol(
+									"wrong_token_no_effect",
+									&format!("wrong_token_changed_active_account:{}:{}", method, class),
+									format!(
+										"wallet {}: {} with a {} token (answer: {}) switched the active account from {} to {}",
+										w,
+										method,
+										class,
+										if out.ok { "ok".to_owned() } else { out.err.clone().unwrap_or_default() },
+										a0,
+										a1
+									),
+								));
+								return v;
+							}
+						}
 					}
 					if dig0 != dig1 {
 						v.push(run.viol(
